@@ -333,13 +333,6 @@ func argClass(m *mworld, op Op) string {
 					parts = append(parts, "other-set")
 				}
 			}
-		} else if has {
-			if d.E == flFalse {
-				parts = append(parts, "e=F")
-			}
-			if d.C == flFalse {
-				parts = append(parts, "c=F")
-			}
 		}
 		return strings.Join(parts, ",")
 	case opSet, opGet:
@@ -356,7 +349,13 @@ func argClass(m *mworld, op Op) string {
 		}
 		return s
 	case opSetProto:
-		return "proto=" + roleNames[op.Rc]
+		switch op.Rc {
+		case obNull:
+			return "proto=null"
+		case obO, obChild:
+			return "proto=cycle"
+		}
+		return "proto=object"
 	case opAssign:
 		how, what := "Object.assign", "adds"
 		if op.J&1 != 0 {
@@ -524,7 +523,16 @@ func abstractDiff(impl, model string) string {
 				case px.acc != py.acc:
 					what = fmt.Sprintf("kind impl=%s model=%s", map[bool]string{true: "accessor", false: "data"}[px.acc], map[bool]string{true: "accessor", false: "data"}[py.acc])
 				case px.w != py.w || px.e != py.e || px.c != py.c:
-					what = fmt.Sprintf("flags impl=w%se%sc%s model=w%se%sc%s", b01(px.w), b01(px.e), b01(px.c), b01(py.w), b01(py.e), b01(py.c))
+					what = "flags:"
+					if px.w != py.w {
+						what += " writable impl=" + b01(px.w)
+					}
+					if px.e != py.e {
+						what += " enumerable impl=" + b01(px.e)
+					}
+					if px.c != py.c {
+						what += " configurable impl=" + b01(px.c)
+					}
 				case px.a != py.a || px.b != py.b:
 					what = "value/get/set"
 				}
@@ -633,6 +641,10 @@ func transitionRef(h *harness, sc *scenario, path []Op, op Op, ref *Op, preDump 
 			fail = &failure{fine: fine + mm, mismatch: mm, what: where + "result " + implRes + ", specification " + modelRes + inv}
 		case md != dump:
 			mm := "state " + abstractDiff(dump, md)
+			if strings.HasSuffix(mm, ".ownKeys order differs") {
+				// the same keys in another order: a defect of the key listing, whatever operation led here
+				fine = routeNames[rtReflect] + "|" + kindSpecs[sc.Kind].Class + "|own-key-order|"
+			}
 			if strings.Contains(mm, ".flag impl=z") {
 				// only Object.isFrozen / Object.isSealed answer wrongly: that is a defect of those tests, whatever
 				// operation led to the state
